@@ -460,10 +460,11 @@ Qed.
 Theorem agrees_satisfies :
   keys_consistent ->
   forall t, origin_consistent t -> t_aud t <> []%N ->
+  working_key t = t_key t ->      (* the signer copied the secret, or the caller left its buffer alone *)
   validate_tok (t_key t) (t_aud t) (t_now t) (t_view t) <> Panic ->
   agrees_v t = true -> satisfies_v t = true.
 Proof.
-  intros K t OC Haud NP A. unfold agrees_v in A. unfold satisfies_v.
+  intros K t OC Haud WK NP A. unfold agrees_v in A. rewrite WK in A. unfold satisfies_v.
   unfold validate_tok, validate_app in *.
   set (ac := jwt_aud_assert_checked) in *. set (dc := jwt_dur_assert_checked) in *. set (sc := jwt_sig_canon_checked) in *. clearbody ac dc sc.
   apply andb_true_iff in A as [A _]. apply andb_true_iff in A as [A A3]. apply andb_true_iff in A as [A1 A2].
@@ -507,5 +508,17 @@ Theorem issue_number_exact_iff u : (forall z, issue_number u z = z) <-> u = true
 Proof.
   split.
   - intros H. destruct u; [reflexivity|]. specialize (H (two53 + 1)). vm_compute in H. discriminate.
+  - intros ->. reflexivity.
+Qed.
+
+(* ---------- 6. the secret the signer works with ---------- *)
+Theorem working_key_copied t : working_key_g true t = t_key t.
+Proof. reflexivity. Qed.
+
+Theorem working_key_iff copies : (forall t, working_key_g copies t = t_key t) <-> copies = true.
+Proof.
+  split.
+  - intros H. destruct copies; [reflexivity|].
+    specialize (H (mkTrace [1]%N [0]%N 0 [] [] VNoSplit ORaw OPanic OPanic None)). discriminate.
   - intros ->. reflexivity.
 Qed.
